@@ -29,6 +29,14 @@ pub open spec fn rv32_int(op: MathOp, x: int, y: int) -> int {
     }
 }
 
+/// dividing by -1 negates, so the remainder is 0 (stated once so that the Rem/Div clauses do not depend on the SMT seed)
+pub proof fn lemma_div_rem_minus_one(x: int)
+    ensures trunc_div(x, -1) == -x, trunc_rem(x, -1) == 0,
+{
+    assert(x >= 0 ==> x / 1 == x) by(nonlinear_arith);
+    assert(x < 0 ==> (-x) / 1 == -x) by(nonlinear_arith);
+}
+
 // ---- std contracts assumed (documented behaviour of core::num; listed in TRUSTED.md) ----
 pub assume_specification [i32::wrapping_div] (x: i32, y: i32) -> (r: i32)
     requires y != 0,
